@@ -1,24 +1,41 @@
 """C18 -- The meta application never reveals secrets and always renders.
 
 Decided:
-  R18.a  who may read resource values (taint over meta.py, followed through local aliases, module-level helper
-         functions, comprehensions and module-level constants): every read of a ``.resources`` mapping is key-only
-         (``in``, ``.keys()``, ``len``, iteration over the names), a constant-key subscript on the meta
-         application's own resources, or an iteration over its ``items()`` in which the *value* variable is
-         evaluated only where ``'secret' in key`` is known to be false (statement-level path conditions, guard
-         clauses, conditional expressions, comprehension filters), the tested key is the intact key variable, and the
-         other branch yields a constant marker that reaches the listing; parameter defaults of endpoints are
-         consulted by name only; no peripheral context stores an Application / route / middleware / request
-         object itself (so the JSON encoder cannot reach a value by traversal);
-  R18.b  middleware info: get_mw_infos reads only the class name, provides, requires and repr(mw); no
-         ``__repr__`` of a Middleware subclass in clastic reads an attribute whose name contains 'secret'
-         or 'key' (SignedCookieMiddleware.__repr__ shows arg_name and cookie_name only);
-  R18.c  sections fail soft: the inject(peri.get_context, ...) call of get_main, and both inject calls of
-         render_main_page_html, are each under ``except Exception`` handlers that substitute a placeholder and do
-         not re-raise, once per peripheral;
+  R18.a  who may read resource values -- a value-flow analysis over meta.py.  Sources are the reads of a ``.resources``
+         mapping and of ``get_defaults_dict()``; the flow is followed through local aliases, copies (``dict(m)``,
+         ``sorted(m.items())``, ``enumerate``), helper functions / (static)methods of the tree the mapping, a pair or
+         a value is handed to (also nested functions, which in addition read the tagged locals of their enclosing
+         function), comprehensions, generators and lambdas.  Every occurrence must be one of
+           * names only: ``in``, ``.keys()``, ``len`` / ``sorted`` / ``list`` / ``zip`` .., iteration over the names,
+             an emptiness test, a constant-key subscript on the meta application's own resources;
+           * an iteration over ``items()`` (pairs taken apart in the loop target, in the body or by a helper) or a
+             lookup ``m[name]``, where the *value* is evaluated only where ``'secret' in <name>`` is known to be
+             false: path conditions of the statement (if / elif / guard clauses with return / continue, named
+             conditions, a sentinel set on one branch), arms of conditional expressions, ``and`` / ``or`` operands,
+             comprehension filters; the fragment may be a module-level constant, the test a one-expression
+             predicate function, the name lower-cased;
+         the tested name is the intact key (never re-bound where it is bound together with the value); where
+         'secret' is in the name a constant marker is produced (literal or module constant; on the branch, or as a
+         default that is replaced only on the non-secret branch) and reaches the listing (appended / yielded /
+         element of the returned comprehension, possibly through locals and the helper's return value).  Parameter
+         defaults of endpoints are consulted by name only.  No peripheral context stores an Application / route /
+         middleware / request object itself (conventional names, aliases, loop variables over .routes /
+         .middlewares / .peripherals, parameters of helpers they are handed to), so the JSON encoder cannot reach a
+         value by traversal;
+  R18.b  middleware info: where get_mw_infos (loop, comprehension, map(), generator or row helper) holds one
+         middleware, only the class name, provides, requires and repr(mw) are read; no ``__repr__`` / ``__str__`` of
+         Middleware or a subclass reads -- itself or through the methods it calls -- an attribute whose name
+         contains 'secret' or 'key', ``vars()`` / ``__dict__`` or an attribute chosen at run time;
+  R18.c  sections fail soft: the inject(<peripheral>.get_context, ..) call of get_main and the two inject calls of
+         render_main_page_html -- in the method, in a helper, a nested function or a lambda that is followed to where
+         it runs -- are each under an ``except Exception`` handler (around the call or around the call of the helper)
+         that does not re-raise, substitutes a placeholder (or leaves the one stored right before the try) and does
+         not index into the exception; the try statement is inside the loop over the peripherals; a generator helper
+         is protected only where it is consumed;
   R18.d  templates: every reference of the meta_*.html templates is escaped, except the allow-listed
          {content|s} of meta_base.html, whose value is an ashes render of a checked section template.
-Declined: "200 for any host application" beyond R18.c; secrets inside the repr of non-secret-named resources.
+Declined: "200 for any host application" beyond R18.c (code outside the protected calls, totality of the handlers);
+secrets inside the repr of non-secret-named resources.
 """
 import ast
 import os
@@ -76,14 +93,42 @@ def _walk(fi):
 def _fold_str(repo, fi, expr):
     """Folded value of a constant-valued expression (literals and module-level constants); None when it reads a
     local or cannot be folded."""
+    v = _fold_any(repo, fi, expr)
+    return v if isinstance(v, str) else None
+
+
+def _fold_any(repo, fi, expr):
+    """Value of a constant-valued expression: literals, module-level constants, and class-level constants read as
+    ``self.X`` / ``cls.X`` / ``Class.X`` (when no code of the module assigns that attribute)."""
     if expr is None:
         return None
+    if isinstance(expr, ast.Attribute) and isinstance(expr.value, ast.Name) and isinstance(expr.ctx, ast.Load):
+        ci = None
+        if expr.value.id in ('self', 'cls'):
+            ci = _class_of(fi)
+        elif expr.value.id not in _local_names(fi):
+            kind, m, obj = repo.resolve(fi.mod, expr.value.id)
+            if kind == 'class' and m is not None and not m.external:
+                ci = obj
+        if ci is not None:
+            dc, val = repo.class_attr(ci, expr.attr)
+            if dc is not None and isinstance(val, ast.expr) and not any(
+                    isinstance(n, ast.Attribute) and n.attr == expr.attr and isinstance(n.ctx, (ast.Store, ast.Del)) for n in ast.walk(dc.mod.tree)):
+                # (a subclass of the analysed module may override it: all definitions must agree)
+                vals = set()
+                for c in dc.mod.classes.values():
+                    if expr.attr in c.class_attrs and (c is dc or dc in repo.mro(c)):
+                        v = repo.try_fold(c.class_attrs[expr.attr], c.mod) if c.class_attrs[expr.attr] is not None else None
+                        vals.add(repr(v))
+                        last = v
+                if len(vals) == 1:
+                    return last
+            return None
     loc = _local_names(fi)
     for n in ast.walk(expr):
         if isinstance(n, ast.Name) and n.id in loc:
             return None
-    v = repo.try_fold(expr, fi.mod)
-    return v if isinstance(v, str) else None
+    return repo.try_fold(expr, fi.mod)
 
 
 def resolve_callee(repo, fi, call):
@@ -206,6 +251,20 @@ def call_of_arg(mod, node):
         if isinstance(gp, ast.Call):
             return gp
     return None
+
+
+def is_aliased(mod, n):
+    """``n`` is the whole value bound to a plain local: ``x = n`` / ``x: T = n`` / ``(x := n)`` / ``a, x = .., n``."""
+    par = mod.parents.get(n)
+    if isinstance(par, (ast.Assign, ast.AnnAssign, ast.NamedExpr)) and par.value is n:
+        return all(isinstance(x, ast.Name) for x in (par.targets if isinstance(par, ast.Assign) else [par.target]))
+    if isinstance(par, (ast.Tuple, ast.List)):
+        asg = mod.parents.get(par)
+        if isinstance(asg, ast.Assign) and asg.value is par and len(asg.targets) == 1 and isinstance(asg.targets[0], (ast.Tuple, ast.List)) and \
+                len(asg.targets[0].elts) == len(par.elts) and not any(isinstance(x, ast.Starred) for x in par.elts + asg.targets[0].elts):
+            i = [j for j, x in enumerate(par.elts) if x is n]
+            return bool(i) and isinstance(asg.targets[0].elts[i[0]], ast.Name)
+    return False
 
 
 def expr_conds(fi, node):
@@ -390,7 +449,8 @@ class _Taint(object):
             return {('map', 'resources', norm(e.value) in OWNERS)}
         if isinstance(e, ast.Name) and isinstance(e.ctx, ast.Load):
             return set(env.get(e.id, ()))
-        if isinstance(e, ast.Subscript) and isinstance(e.ctx, ast.Load) and isinstance(e.slice, ast.Name) and self._cur_fi is not None:
+        if isinstance(e, ast.Subscript) and isinstance(e.ctx, ast.Load) and isinstance(e.slice, ast.Name) and self._cur_fi is not None and \
+                e.slice.id in _local_names(self._cur_fi):
             if any(t[0] == 'map' and t[1] == 'resources' for t in self.tags(e.value, env)):
                 return {('val', e.slice.id, self._lookup_site(self._cur_fi, e.slice.id, e))}
             return set()
@@ -582,6 +642,12 @@ class _Taint(object):
             if isinstance(n, ast.Assign) and len(n.targets) == 1 and isinstance(n.targets[0], ast.Name):
                 assigns.append((n.targets[0].id, n.value))
             elif isinstance(n, ast.Assign) and len(n.targets) == 1 and isinstance(n.targets[0], (ast.Tuple, ast.List)) and \
+                    isinstance(n.value, (ast.Tuple, ast.List)) and len(n.value.elts) == len(n.targets[0].elts) and \
+                    not any(isinstance(x, ast.Starred) for x in n.value.elts + n.targets[0].elts):
+                for t, v in zip(n.targets[0].elts, n.value.elts):       # a, b = x, y
+                    if isinstance(t, ast.Name):
+                        assigns.append((t.id, v))
+            elif isinstance(n, ast.Assign) and len(n.targets) == 1 and isinstance(n.targets[0], (ast.Tuple, ast.List)) and \
                     len(n.targets[0].elts) == 2 and all(isinstance(x, ast.Name) for x in n.targets[0].elts):
                 unpacks.append(n)
             elif isinstance(n, ast.AnnAssign) and isinstance(n.target, ast.Name) and n.value is not None:
@@ -708,13 +774,19 @@ class _Taint(object):
                     if callee is not None and callee.key in closures:
                         ent = pending.setdefault(id(n), (n, callee, {}))
                         for nm, ts in closures[callee.key][2].items():
-                            ent[2].setdefault(nm, set()).update(ts)
+                            for t in ts:
+                                if t[0] == 'val' and self.polarity(fi, n, t[1]) == -1:
+                                    t[2].use(fi, n, True)     # only called where 'secret' is not in the name
+                                    continue
+                                ent[2].setdefault(nm, set()).add(t)
                         called.add(callee.key)
         # follow tagged arguments into the helpers they are passed to
         for call, callee, ptags2 in pending.values():
             self.scan(callee, ptags2, chain + ((fi, call),))
         for key, (g, dn, ct) in closures.items():
-            if key not in called:       # handed around as a callback: judged on its own
+            escapes = any(isinstance(x, ast.Name) and x.id == g.name and isinstance(x.ctx, ast.Load) and
+                          not (isinstance(mod.parents.get(x), ast.Call) and mod.parents.get(x).func is x) for x in nodes)
+            if key not in called or escapes:       # handed around as a callback: judged on its own
                 self.scan(g, ct, chain + ((fi, dn),))
 
     def _region(self, fi, binder):
@@ -761,9 +833,7 @@ class _Taint(object):
         par = fi.mod.parents.get(n)
         if self.polarity(fi, n, k) == -1:
             site.use(fi, n, True)
-        elif isinstance(par, (ast.Assign, ast.AnnAssign, ast.NamedExpr)) and par.value is n and \
-                all(isinstance(x, ast.Name) for x in (par.targets if isinstance(par, ast.Assign) else [par.target])) and \
-                isinstance(n, (ast.Name, ast.Subscript)):
+        elif is_aliased(fi.mod, n) and isinstance(n, (ast.Name, ast.Subscript)):
             site.use(fi, n, True)      # alias: the new name carries the tag, its uses are judged
         elif self._transfer(fi, n, tag, pending):
             site.use(fi, n, True)      # handed to a helper: judged there
@@ -804,15 +874,15 @@ class _Taint(object):
             elif isinstance(par, ast.Call) and isinstance(par.func, ast.Name) and par.func.id in ('zip', 'enumerate') and not par.keywords and \
                     any(n is a for a in par.args):
                 kind = '%s() over the names' % par.func.id
-            elif isinstance(par, ast.Subscript) and par.value is n and isinstance(par.slice, ast.Constant) and tag[2] and \
-                    isinstance(par.ctx, ast.Load):
-                kind = 'own constant key %r of the meta application' % (par.slice.value,)
+            elif isinstance(par, ast.Subscript) and par.value is n and tag[2] and isinstance(par.ctx, ast.Load) and \
+                    not isinstance(par.slice, ast.Slice) and _fold_str(self.repo, fi, par.slice) is not None:
+                kind = 'own constant key %r of the meta application' % (_fold_str(self.repo, fi, par.slice),)
             elif isinstance(par, (ast.If, ast.While, ast.IfExp)) and par.test is n:
                 kind = 'emptiness test'
             elif isinstance(par, ast.UnaryOp) and isinstance(par.op, ast.Not):
                 kind = 'emptiness test'
             elif isinstance(par, ast.Subscript) and par.value is n and isinstance(par.slice, ast.Name) and tag[1] == 'resources' and \
-                    isinstance(par.ctx, ast.Load):
+                    isinstance(par.ctx, ast.Load) and par.slice.id in _local_names(fi):
                 kind = 'value looked up by name (judged per use of the value)'
         elif tag[0] == 'pair':
             if isinstance(par, ast.Assign) and par.value is n and id(par) in sites:
@@ -835,8 +905,7 @@ class _Taint(object):
                     kind = '%s() (judged where it is iterated)' % par.func.id
                 elif par.func.id == 'len' and not par.keywords:
                     kind = 'len()'
-        if kind is None and isinstance(par, (ast.Assign, ast.AnnAssign, ast.NamedExpr)) and par.value is n and \
-                all(isinstance(x, ast.Name) for x in (par.targets if isinstance(par, ast.Assign) else [par.target])):
+        if kind is None and is_aliased(mod, n):
             kind = 'local alias (judged where it is used)'
         if kind is None and self._transfer(fi, n, tag, pending):
             kind = 'argument of a helper of meta.py (judged there)'
@@ -928,6 +997,13 @@ class _Taint(object):
                 out.append(cur)
         return out
 
+    def _loads_flow(self, fi, names, skip_stmt, chain, depth):
+        for n in _walk(fi):
+            if isinstance(n, ast.Name) and n.id in names and isinstance(n.ctx, ast.Load) and \
+                    stmt_of(fi.mod, n) is not skip_stmt and self.flows_to_output(fi, n, chain, depth + 1):
+                return True
+        return False
+
     def flows_to_output(self, fi, node, chain, depth=0):
         """The value of ``node`` becomes (part of) an element of the listing: it is appended / yielded / the element of
         a comprehension, possibly through a local, a container display or the return value of the helper."""
@@ -945,6 +1021,12 @@ class _Taint(object):
                 return True
             if isinstance(par, (ast.Yield, ast.YieldFrom)):
                 return True
+            if isinstance(par, (ast.Call, ast.keyword)):
+                # stored into a local container: row.update(value=..) / row.setdefault('value', ..)
+                c = par if isinstance(par, ast.Call) else mod.parents.get(par)
+                if isinstance(c, ast.Call) and isinstance(c.func, ast.Attribute) and c.func.attr in ('update', 'setdefault') and \
+                        isinstance(mod.parents.get(c), ast.Expr) and _root_name(c.func.value) is not None:
+                    return self._loads_flow(fi, {_root_name(c.func.value)}, mod.parents.get(c), chain, depth)
             if isinstance(par, ast.stmt):
                 if isinstance(par, (ast.Assign, ast.AnnAssign, ast.AugAssign)) and par.value is cur:
                     names = set()
@@ -953,11 +1035,7 @@ class _Taint(object):
                             t = t.value
                         if isinstance(t, ast.Name):
                             names.add(t.id)
-                    for n in walk_body(fi.node):
-                        if isinstance(n, ast.Name) and n.id in names and isinstance(n.ctx, ast.Load) and \
-                                stmt_of(mod, n) is not par and self.flows_to_output(fi, n, chain, depth + 1):
-                            return True
-                    return False
+                    return self._loads_flow(fi, names, par, chain, depth)
                 if isinstance(par, ast.Return) and par.value is cur:
                     if chain:
                         cfi, call = chain[-1]
@@ -968,9 +1046,38 @@ class _Taint(object):
         return False
 
 
+class _LambdaInfo(object):
+    """A lambda outside any function (module-level tables of predicates), presented like a function."""
+
+    def __init__(self, mod, lam, qualname):
+        self.mod, self.qualname, self.cls = mod, qualname, None
+        self.node = ast.FunctionDef(name='<lambda>', args=lam.args, body=[ast.copy_location(ast.Return(value=lam.body), lam)],
+                                    decorator_list=[], returns=None, type_comment=None)
+        ast.copy_location(self.node, lam)
+        self.name = '<lambda>'
+        self.key = '%s::%s' % (mod.name, qualname)
+
+    def params(self):
+        a = self.node.args
+        return [x.arg for x in a.posonlyargs + a.args + a.kwonlyargs]
+
+
+def _toplevel_lambdas(mod):
+    out, count = [], {}
+    for st in mod.tree.body:
+        if isinstance(st, (ast.FunctionDef, ast.AsyncFunctionDef)):
+            continue
+        for n in ast.walk(st):
+            if isinstance(n, ast.Lambda) and mod.enclosing_function(n) is None:
+                owner = norm(st.targets[0]) if isinstance(st, ast.Assign) else (st.name if isinstance(st, ast.ClassDef) else '<module>')
+                i = count[owner] = count.get(owner, 0) + 1
+                out.append(_LambdaInfo(mod, n, '%s.<lambda#%d>' % (owner, i)))
+    return out
+
+
 def _r18a(rep, repo, meta):
     tn = _Taint(repo, meta)
-    for fi in meta.functions.values():
+    for fi in list(meta.functions.values()) + _toplevel_lambdas(meta):
         tn.scan(fi, {})
     n_res = sum(1 for fi, n, _, _ in tn.reads if isinstance(n, ast.Attribute) and n.attr == 'resources')
     if n_res < 3:
@@ -1223,7 +1330,7 @@ def _single_assignment(fi, name):
     return srcs[0] if len(srcs) == 1 and len(stores) == 1 else None
 
 
-def _mw_scopes(repo, fi, coll_names, depth=0):
+def _mw_scopes(repo, fi, coll_names, depth=0, seen=None):
     """[(function, nodes, local)]: the places where one middleware of the application's list is held by ``local`` --
     the body of a loop / the element of a comprehension over the list, the function mapped over it, followed into the
     helpers of the tree the list is handed to."""
@@ -1255,8 +1362,10 @@ def _mw_scopes(repo, fi, coll_names, depth=0):
             return b.target.elts[1].id
         return None
     out = []
-    if depth > 3:
+    seen = set() if seen is None else seen
+    if depth > 3 or (fi.key, tuple(sorted(coll_names))) in seen:
         return out
+    seen.add((fi.key, tuple(sorted(coll_names))))
     mod = fi.mod
     for n in walk_body(fi.node):
         if isinstance(n, (ast.For, ast.comprehension)) and is_coll(n.iter):
@@ -1287,9 +1396,12 @@ def _mw_scopes(repo, fi, coll_names, depth=0):
             if callee is None:
                 continue
             b = bind_args(callee, skip, n)
-            for p, x in (b or {}).items():
-                if is_coll(x):
-                    out.extend(_mw_scopes(repo, callee, {p}, depth + 1))
+            passed = [p for p, x in (b or {}).items() if is_coll(x)]
+            for p in passed:
+                out.extend(_mw_scopes(repo, callee, {p}, depth + 1, seen))
+            if not passed and callee.mod is mod:
+                # the helper may be handed the application and iterate its middlewares itself
+                out.extend(_mw_scopes(repo, callee, set(), depth + 1, seen))
     return out
 
 
@@ -1655,7 +1767,7 @@ def _r18d(rep, repo, meta):
     mi = meta.func('MetaApplication.__init__')
 
     def names_base(e):
-        return any(repo.try_fold(y, meta) == 'meta_base.html' for x in _with_locals(mi, e) for y in ast.walk(x)
+        return any(_fold_any(repo, mi, y) == 'meta_base.html' for x in _with_locals(mi, e) for y in ast.walk(x)
                    if isinstance(y, (ast.Constant, ast.Name, ast.Attribute)))
     renders = [s for s in stmts_of(mi.node) if isinstance(s, ast.Assign) and any(norm(t) == 'self._main_page_render' for t in s.targets)]
     if not renders:
